@@ -19,7 +19,15 @@ from . import guards
 
 
 def _lits_of_test(test):
-    """(variable name, [literal values], dict display or None) for `V in (...)` / `V in {...}`"""
+    """(variable name, [literal values], dict display or None) for `V in (...)` / `V in {...}`; a leading
+    `isinstance(V, str) and` (the guard that keeps unhashable kinds away from the table) is implied by every case"""
+    if isinstance(test, ast.BoolOp) and isinstance(test.op, ast.And) and len(test.values) == 2:
+        g, t2 = test.values
+        if isinstance(g, ast.Call) and isinstance(g.func, ast.Name) and g.func.id == "isinstance" and len(g.args) == 2 and isinstance(g.args[0], ast.Name) and isinstance(g.args[1], ast.Name) and g.args[1].id == "str":
+            r = _lits_of_test(t2)
+            if r is not None and r[0] == g.args[0].id:
+                return r
+        return None
     if not (isinstance(test, ast.Compare) and len(test.ops) == 1 and isinstance(test.ops[0], ast.In) and isinstance(test.left, ast.Name)):
         return None
     c = test.comparators[0]
